@@ -550,6 +550,28 @@ REQUIRES_FOR = dict(REQUIRES_FOR, C13_fault_in_stream=_SREQ, C13_stream_fault_ne
 COQ_TARGETS = list(COQ_TARGETS) + ["theories/Props/C13s.vo"]
 COQCHK = list(COQCHK) + ["MS.Props.C13s"]
 
+# C13 at the poll level of the asynchronous entry point: C12 composed with C13 (Props/C13a.v, Base/AsyncSanFault.v)
+_AREQ = ["From Coq Require Import List NArith ZArith Bool.",
+         "From MS Require Import Base.Bytes Base.Outcome Base.Cursor Base.Adapters Base.Async Base.AsyncSpec Base.AsyncSan Base.AsyncSanFault "
+         "Base.ProgSpec Mp4.San Gen.Consts Props.C13a.",
+         "From MS Require Base.Prog.", "Open Scope N_scope."]
+THEOREMS = list(THEOREMS) + [
+    ("C13_async_reader_error_propagates_mp4", """forall (cfg : config) (fuel : nat) (R : reader)
+  (s : bst (rst (ard (pending_reader R)))) (sc : sch) (o : Prog.op) (e : ioerr),
+  first_err (san_reader R) (sanitize_prog cfg fuel) s = Some (o, e) ->
+  exists r s' sc',
+    run_san_sched BOXHEADER_MAX_SIZE (pending_reader R) (sanitize_prog cfg fuel) s sc = Some (r, s', sc') /\\
+    (r = EIo e \\/ (e = EUnexpectedEof /\\ r = EParse TruncatedBox))"""),
+    ("C13_async_same_result_as_sync", """forall (cfg : config) (fuel : nat) (R : reader)
+  (s : bst (rst (ard (pending_reader R)))) (sc : sch),
+  exists s' sc',
+    run_san_sched BOXHEADER_MAX_SIZE (pending_reader R) (sanitize_prog cfg fuel) s sc =
+    Some (fst (Prog.run (san_reader R) (sanitize_prog cfg fuel) s), s', sc')"""),
+]
+REQUIRES_FOR = dict(REQUIRES_FOR, C13_async_reader_error_propagates_mp4=_AREQ, C13_async_same_result_as_sync=_AREQ)
+COQ_TARGETS = list(COQ_TARGETS) + ["theories/Props/C13a.vo"]
+COQCHK = list(COQCHK) + ["MS.Props.C13a"]
+
 
 def _is_b(line):
     return line.startswith(("seq ", "seqf "))
